@@ -31,15 +31,19 @@ where
     type Output = O;
     type Error = P::Error;
     fn parse(&mut self, input: &mut I) -> Result<Self::Output, Self::Error> {
+        let original_position = input.get_position();
         match self.parser.parse(input) {
             Ok(first_value) => {
                 let mut result = self.combiner.seed(first_value);
                 loop {
+                    let position = input.get_position();
                     match self.parser.parse(input) {
                         Ok(value) => {
                             result = self.combiner.accumulate(result, value);
                         }
                         Err(err) if err.is_soft() => {
+                            // the result ends after the last successful element
+                            input.set_position(position);
                             break;
                         }
                         Err(err) => {
@@ -50,6 +54,7 @@ where
                 Ok(result)
             }
             Err(err) if err.is_soft() => {
+                input.set_position(original_position);
                 if self.allow_none {
                     Ok(O::default())
                 } else {
